@@ -74,6 +74,14 @@ def body_construct(S, spec):
             same_array(S, "direct" + tag, x4, xs)
             # from_fill_fn: exactly the valid sectors, each with the shape its indices assign
             shapes = []
+            if generic:
+                # history: the same index tables, directions and total charge under the other symmetries with the same kind of charge label
+                # (what the class computes for one symmetry must not be served to another)
+                for other in ({"Z2": ("U1", "Z4"), "U1": ("Z2", "Z4"), "Z4": ("Z2", "U1"), "Z2Z2": ("U1U1",), "U1U1": ("Z2Z2",)}[sym]):
+                    try:
+                        cls.from_fill_fn(lambda shp: np.zeros(shp), make_indices(a), **co, **dict(so, symmetry=other), **fkw)
+                    except Exception:
+                        pass
             x2 = cls.from_fill_fn(lambda shp: (shapes.append(tuple(shp)) or np.zeros(shp)), indices, **co, **so, **fkw)
             want = set(fam.sectors_of(sym, a["indices"], a["charge"]))
             S.require("from_fill_fn" + tag + ":sectors", set(x2.blocks) == want and len(x2.blocks) == len(want),
